@@ -31,6 +31,22 @@ theorem cleaner_tables_nonempty :
     noiseMarkers ≠ [] ∧ (noiseMarkers.all fun m => m ≠ []) ∧ (excPrefixes.all fun m => m ≠ []) ∧ jarfilePhrase ≠ [] := by
   decide +kernel
 
+/-- the model's `isLineBreak` is Python's `str.splitlines()` boundary set (probed over every code point) -/
+theorem isLineBreak_table (c : Char) : isLineBreak c = Gen.c18LineBreaks.contains c.toNat := by
+  have h : Gen.c18LineBreaks = [10, 11, 12, 13, 28, 29, 30, 133, 8232, 8233] := by decide
+  rw [h, Bool.eq_iff_iff]
+  simp [isLineBreak]
+  omega
+
+/-- the blanks the strip lemmas reason about are exactly what Python's `str.strip()` removes (probed) -/
+theorem strip_blanks_table : Gen.c18StripBlanks = spaceNats := by decide
+
+/-- … and `pyIsSpace` (Base) accepts exactly those code points -/
+theorem pyIsSpace_table (c : Char) : pyIsSpace c = Gen.c18StripBlanks.contains c.toNat := by
+  rw [strip_blanks_table, Bool.eq_iff_iff]
+  simp [pyIsSpace, spaceNats]
+  omega
+
 theorem watchdog_positive : 0 < Gen.c18ValidatorTimeout := by decide
 
 /-! ## the state machine -/
